@@ -30,7 +30,9 @@ Init ==
 
 Ops ==      [k : {"cacheresp", "eod", "notify", "cachereset", "error", "routerkey"}, cut : Cuts]
        \cup [k : {"announce", "withdraw"}, v : V, cut : Cuts]
-       \cup [k : {"end"}]
+       \* session loss at any point: the stream ends on a PDU boundary ("clean"), in the middle of a PDU header
+       \* ("midhdr") or in the middle of a prefix PDU's body ("midpdu")
+       \cup [k : {"end"}, how : {"clean", "midhdr", "midpdu"}]
 
 Enabled(st, op) ==
   /\ st.up
